@@ -1,4 +1,4 @@
 SPECIFICATION TraceSpec
-CONSTANTS NH = 4 GranE = 0 ES = 16 MaxLen = 100000 MaxArg = 100000 NV = 3 Prune = FALSE Api = "c"
+CONSTANTS NH = 4 GranE = 0 ES = 16 MaxLen = 100000 MaxArg = 100000 NV = 3 CTSet = {"raw", "plain", "elem", "elemB"} Prune = FALSE Api = "c"
 INVARIANTS DebugStop
 CHECK_DEADLOCK FALSE
